@@ -313,9 +313,10 @@ def find_and_replace_header(
     except MissingReuseInfoError:
         before, header, after = "", "", text
 
-    # Workaround. EmptyCommentStyle should always be completely replaced.
+    # Workaround. EmptyCommentStyle should always be completely replaced: all
+    # of the text is the header, also when nothing can be read from it.
     if style is EmptyCommentStyle:
-        after = ""
+        before, header, after = "", text, ""
 
     _LOGGER.debug(f"before = {repr(before)}")
     _LOGGER.debug(f"header = {repr(header)}")
